@@ -388,6 +388,30 @@ def model_values(model, names):
     return out
 
 
+def sensitivity_cover(run, n=2):
+    """Vacuity guard of the thorough tier: two catalogue mutants of THIS property are applied to scratch copies of the tree under
+    test and the quick check must report them.  Informational (evidence + log line): it never changes this run's exit code."""
+    import importlib.util
+
+    spec = importlib.util.spec_from_file_location("selftest_run", os.path.join(VERIF, "selftest", "run.py"))
+    st = importlib.util.module_from_spec(spec)
+    spec.loader.exec_module(st)
+    st.REPO = REPO
+    cat = [e for e in json.load(open(os.path.join(VERIF, "selftest", "catalogue.json"))) if e["property"] == run.pid and e.get("expect")]
+    out = []
+    # spread over the catalogue deterministically (first and middle entry that still apply to this tree)
+    order = cat[:1] + cat[len(cat) // 2 : len(cat) // 2 + 1] + cat[1:]
+    for e in order:
+        if len([o for o in out if o["status"] != "STALE"]) >= n:
+            break
+        entry, status, info, txt = st.run_one(e, "quick")
+        out.append({"mutant": e["name"], "status": status, "reported": info[:200]})
+    run.extra["sensitivity_cover"] = out
+    for o in out:
+        if o["status"] not in ("CAUGHT", "STALE"):
+            log(f"SENSITIVITY-COVER property={run.pid} mutant {o['mutant']} was NOT reported ({o['status']}): the check may have lost sensitivity")
+
+
 def main(mod):
     import argparse
 
@@ -407,4 +431,9 @@ def main(mod):
         mod.check(run)
     except Exception as e:
         run.errors.append(f"{type(e).__name__}: {e}\n{traceback.format_exc()}")
+    if args.tier == "thorough" and not os.environ.get("PVC_SELFTEST"):
+        try:
+            sensitivity_cover(run)
+        except Exception as e:  # informational only
+            run.notes.append(f"sensitivity cover could not run: {e!r}")
     sys.exit(finish(run, mod))
